@@ -257,6 +257,40 @@ def _deep(ctx: Ctx, item):
         ctx.report(f"C11|deep|identity-lost|{mode}", f"{wrong} messages of the permitted sender lost their identity (first: {first})", case)
 
 
+def _manufacturers(ctx: Ctx, item=None):
+    """Every manufacturer code of the database table: a device of that manufacturer claims, its data is withheld by an exclude list naming
+    the manufacturer (any letter case) and let through by an include list naming it; the identity says the table's name."""
+    from nmea2000.decoder import NMEA2000Decoder
+    table = canboat.db().lookups["MANUFACTURER_CODE"]
+    data = {"kind": "single", "pgn": 127250, "src": 9, "dest": 255, "data": bytes([7, 0x10, 0x27, 0, 0, 0, 0, 0xFD])}
+    n = 0
+    for code, name in sorted(table.items()):
+        if not name:
+            continue
+        nm = traffic.iso_name(4000 + code, code)
+        claim = {"kind": "claim", "pgn": 60928, "src": 9, "dest": 255, "data": nm.to_bytes(8, "little")}
+        for mode, lst, expect in (("exclude", [name.swapcase()], False), ("include", [name.upper()], True), ("exclude", ["No Such Maker"], True),
+                                  ("include", ["No Such Maker"], False)):
+            dec = NMEA2000Decoder(**{mode + "_manufacturer_code": lst})
+            try:
+                c = traffic.feed(dec, claim)
+                r = traffic.feed(dec, data)
+            except Exception as e:
+                ctx.report("C11|manufacturers|decoder-error", f"manufacturer {code} ({name}): {type(e).__name__}: {e}", {"manufacturers": code})
+                continue
+            ctx.count()
+            n += 1
+            case = {"manufacturers": code}
+            if c is not None and (c.source_iso_name is None or c.source_iso_name.manufacturer_code != name):
+                ctx.report("C11|manufacturers|identity", f"claim with manufacturer code {code}: identity says {getattr(c.source_iso_name, 'manufacturer_code', None)!r}, "
+                           f"the database says {name!r}", case)
+            if (r is not None) != expect:
+                ctx.report(f"C11|manufacturers|{'leak' if r is not None else 'withheld'}-{mode}", f"device of manufacturer {code} ({name}) with {mode} list {lst}: its data was "
+                           f"{'returned' if r is not None else 'withheld'}", case)
+    ctx.nontrivial_extra += n
+    ctx.klass("manufacturer_table_cases", n)
+
+
 def _reclaims(ctx: Ctx, item=None):
     """One address re-claimed hundreds of times by devices of alternating manufacturers (every NAME new, nothing of the earlier results
     kept alive by the caller): after each claim the data of that address is gated by the manufacturer of the LATEST claim."""
@@ -315,6 +349,7 @@ def _clients(ctx: Ctx, item=None):
 def run(ctx: Ctx):
     pmap(ctx, _clients, [None])
     pmap(ctx, _reclaims, [None])
+    pmap(ctx, _manufacturers, [None])
     import os
     if not os.environ.get("VF_SUBPASS"):
         # two sweeps of a 2^20-frame period fit in 2.2 million frames
@@ -324,6 +359,12 @@ def run(ctx: Ctx):
 
 
 def replay(ctx: Ctx, case):
+    if "manufacturers" in case:
+        from ..common import Ctx as _C
+        sub = _C(ctx.pid)
+        sub.known_open = {}
+        _manufacturers(sub)
+        return [(b, v["what"], v["case"]) for b, v in sub.found.items() if v["case"]["manufacturers"] == case["manufacturers"]]
     if case.get("reclaims"):
         from ..common import Ctx as _C
         sub = _C(ctx.pid)
